@@ -246,6 +246,8 @@ class DataFrameToSymbols(FunctionContract):
         'verbatim-without-name': [dict(name=None, type=8, lags=float('nan'), leads=float('nan'), equation='`self.Q = 1`', code='self.Q = 1'),
                                   dict(name=float('nan'), type=8, lags=float('nan'), leads=float('nan'), equation='x', code='x'),
                                   dict(name='X', type=2, lags=-2, leads=1, equation=float('nan'), code=float('nan'))],
+        'text-with-blanks': [dict(name='Y', type=3, lags=0, leads=0, equation='Y[t] = X[t] ', code='self._Y[t] = self._X[t] \t'),
+                             dict(name=None, type=8, lags=float('nan'), leads=float('nan'), equation='`  self.Q = 1`', code='  self.Q = 1\n')],
         'empty': [],
     }
 
